@@ -2,6 +2,7 @@ package rules
 
 import (
 	"fmt"
+	"go/token"
 	"go/types"
 	"sort"
 	"strings"
@@ -177,6 +178,7 @@ func runC15(c *Ctx) {
 	c.R.Rule(rb, "exported operations return no raw slice/map/pointer aliasing receiver or argument storage", 1)
 	c.R.Rule(rc, "no library function outside init writes memory reachable from data.EmptyIntSet / data.EmptyIntMap", 1)
 	c.R.Rule("R15d map-entries-copied-whatever-their-value", "in package data no map entry is written under a condition on a value read from a map: clone/Inc/Filter decide by key membership only (a model map keeps entries whatever their value)", 2)
+	c.R.Rule("R15e no-copy-into-an-empty-slice", "no copy() in package data has a destination that was just made with length 0 (copy transfers min(len(dst), len(src)) elements: such a call silently drops them)", 0)
 	a := c.Own()
 	if !a.Converged() {
 		c.R.Undecided(ra, "fixpoint", "-", "-", "ownership analysis did not converge")
@@ -205,6 +207,7 @@ func runC15(c *Ctx) {
 			continue
 		}
 		nfun++
+		c.ruleR15e("R15e no-copy-into-an-empty-slice", fn)
 		c.ruleR15d("R15d map-entries-copied-whatever-their-value", fn)
 		c.judgeWrites(ra, fn, all)
 		// R15b
@@ -494,6 +497,53 @@ func (c *Ctx) ruleR15d(rule string, fn *ssa.Function) {
 			if !bad {
 				c.R.Hold(rule, c.name(fn)+" map update @"+c.P.InstrPos(mu), "guarded by membership / structure only")
 			}
+		}
+	}
+}
+
+// ruleR15e: copy(dst, src) where dst is, at that point, a slice made with length 0 transfers nothing. The destination
+// is resolved through a store to a local struct field earlier in the same block (store-to-load forwarding).
+func (c *Ctx) ruleR15e(rule string, fn *ssa.Function) {
+	for _, b := range fn.Blocks {
+		for idx, in := range b.Instrs {
+			cl, ok := in.(*ssa.Call)
+			if !ok {
+				continue
+			}
+			bi, isB := cl.Call.Value.(*ssa.Builtin)
+			if !isB || bi.Name() != "copy" || len(cl.Call.Args) != 2 {
+				continue
+			}
+			dst := cl.Call.Args[0]
+			// forward a store to the same local field in this block
+			if u, ok := dst.(*ssa.UnOp); ok && u.Op == token.MUL {
+				if fa, ok := u.X.(*ssa.FieldAddr); ok {
+					if _, local := fa.X.(*ssa.Alloc); local {
+					scan:
+						for k := idx - 1; k >= 0; k-- {
+							switch x := b.Instrs[k].(type) {
+							case *ssa.Store:
+								if fa2, ok := x.Addr.(*ssa.FieldAddr); ok && fa2.X == fa.X && fa2.Field == fa.Field {
+									dst = x.Val
+									break scan
+								}
+							case *ssa.Call:
+								if _, isBuiltin := x.Call.Value.(*ssa.Builtin); !isBuiltin {
+									break scan
+								}
+							}
+						}
+					}
+				}
+			}
+			site := c.name(fn) + " copy @" + c.P.InstrPos(cl)
+			if ms, ok := dst.(*ssa.MakeSlice); ok {
+				if k, isC := ssax.ConstInt(ms.Len); isC && k == 0 {
+					c.R.Violation(rule, c.name(fn)+" copy into an empty slice", c.name(fn), c.P.InstrPos(cl), "the destination of this copy was made with length 0 (only its capacity is set), so copy() transfers no element: the data meant to be copied is silently dropped from the result")
+					continue
+				}
+			}
+			c.R.Hold(rule, site, "destination not a freshly made zero-length slice")
 		}
 	}
 }
